@@ -27,7 +27,7 @@ pub enum PacketHeader {
 }
 
 /// Maximum size of partial packet length.
-const MAX_PARTIAL_LEN: u32 = 2u32.pow(30);
+pub(crate) const MAX_PARTIAL_LEN: u32 = 2u32.pow(30);
 
 impl PacketHeader {
     /// Parse a single packet header from the given reader.
